@@ -258,3 +258,43 @@ Fixpoint tune_height_of (tbl : list (N * N)) (net : N) : N :=
   | [] => 0
   | (id, h) :: r => if id =? net then h else tune_height_of r net
   end.
+
+(** * HandleDeployTransaction (NeoVM contracts; outside the property's quantifier, modelled for the
+    finding deploy:redeploy-destroyed-fee-unreported)
+
+    [d_addr] = deploy.Address(), [d_raw] = the serialized DeployCode that PutContract stores,
+    [t_codelen] = len(deploy.GetRawCode()). cache.GetContract is read from the state: destroyed iff
+    the ST_DESTROYED record is non-empty, present iff the ST_CONTRACT record is non-empty. *)
+Record deptx := mkDep { d_tx : txp; d_addr : bytes; d_raw : bytes }.
+
+(** from `address := deploy.Address()` on; [gas] / [evs] are gasConsumed and the charge's events *)
+Definition deploy_store (d : deptx) (s : state) (gas : N) (evs : list N) : result :=
+  if negb (is_empty (cache_get FEE_ST_DESTROYED s (d_addr d))) then
+    mkRes s StFail 0 [] 0 None              (* "can not redeploy destroyed contract": notify untouched *)
+  else
+    let s' := if is_empty (cache_get FEE_ST_CONTRACT s (d_addr d))
+              then cache_put FEE_ST_CONTRACT (d_addr d) (d_raw d) s else s in
+    mkRes (cache_commit s') StSuccess gas evs (N.of_nat (length evs)) None.
+
+Definition handle_deploy (create unit : option N) (d : deptx) (s : state) : result :=
+  let tx := d_tx d in
+  if t_price tx =? 0 then deploy_store d s 0 []
+  else
+    match create, unit with
+    | Some c, Some u =>
+        let gasLimit := dep_gas_limit c (t_codelen tx) u in
+        let insufficient :=                                   (* isBalanceSufficient returns (0, err) *)
+          match get_balance s (t_payer tx) with
+          | None => true
+          | Some bal => bal_lt_gas bal (dep_need gasLimit (t_price tx))
+          end in
+        if insufficient then cost_invalid tx s (dep_charge_nobal 0)
+        else if dep_lt_limit (t_limit tx) gasLimit then cost_invalid tx s (dep_charge_limit (t_limit tx) (t_price tx))
+        else
+          let g := dep_gas_consumed gasLimit (t_price tx) in
+          match ong_transfer (t_signed tx) (t_payer tx) FEE_GOV_ADDR g s with     (* chargeCostGas on the tx cache *)
+          | (s2, Some e) => charge_failed e s2 g
+          | (s2, None) => deploy_store d (cache_commit s2) g (fee_events g)        (* cache.Commit() *)
+          end
+    | _, _ => mkRes s StBlockError 0 [] 0 None
+    end.
